@@ -28,6 +28,7 @@ type LedgerObl struct {
 
 type LedgerUnit struct {
 	Kind        string                `json:"kind"`
+	Locals      [][2]string           `json:"locals,omitempty"`
 	Obligations map[string]*LedgerObl `json:"obligations"`
 }
 
@@ -248,6 +249,14 @@ func runCheck(prop, tier string, seed int) int {
 		os.WriteFile(p, []byte("cannot load /repo for property "+prop+":\n"+loadErr.Error()+"\n"), 0o644)
 		addViol(violation{obl: "load", replay: p, what: loadErr.Error()})
 	} else {
+		w.ledgerLocals = map[string][][2]string{}
+		for _, units := range ledger.Properties {
+			for key, lu := range units {
+				if len(lu.Locals) > 0 {
+					w.ledgerLocals[key] = lu.Locals
+				}
+			}
+		}
 		units = unitsForProperty(w, prop, dirs)
 		// thorough-only obligations are skipped in the quick tier
 		if tier == "quick" {
@@ -553,7 +562,7 @@ func cmdRelock(args []string) {
 				fmt.Printf("  %s: TRANSLATION ERROR (not locked): %s\n", u.Key, u.Err)
 				continue
 			}
-			lu := &LedgerUnit{Kind: u.Kind, Obligations: map[string]*LedgerObl{}}
+			lu := &LedgerUnit{Kind: u.Kind, Locals: u.Locals, Obligations: map[string]*LedgerObl{}}
 			for _, o := range u.Obls {
 				lo := &LedgerObl{Kind: o.Kind, Backend: o.Backend, Ms: o.Millis, Tier: "quick"}
 				if o.Result == "discharged" {
